@@ -42,6 +42,8 @@ type EvalCtx struct {
 	// bound variables of the enclosing quantifiers (side facts of the floating-point model that
 	// mention them are asserted for all their values)
 	qbound []*Term
+	// last resort for a name that resolves to nothing: a renamed parameter or loop variable (rename.go)
+	unknown func(name string) (TV, bool)
 }
 
 // assume records a defining fact of an auxiliary term introduced while evaluating (for example the
@@ -359,6 +361,11 @@ func (c *EvalCtx) evalIdent(name string) TV {
 	}
 	if c.pkg != nil {
 		if tv, ok := c.lookupPkgObj(c.pkg, name); ok {
+			return tv
+		}
+	}
+	if c.unknown != nil {
+		if tv, ok := c.unknown(name); ok {
 			return tv
 		}
 	}
